@@ -123,6 +123,13 @@ def _int_call(x=0, base=None):
 
 
 def parse_int(s, base):
+    items = list(s.items)
+    if len(items) > 8:
+        return core.memo("int%d%s" % (base, s.kind), items, lambda: _parse_int(s, base))
+    return _parse_int(s, base)
+
+
+def _parse_int(s, base):
     """int(text, base) for symbolic text: optional surrounding blanks are NOT modelled
     (EngineError if they can occur); sign, 0x/0o/0b prefix for the given base, underscores
     between digits are."""
@@ -155,6 +162,34 @@ def parse_int(s, base):
         src = dec_source(items)
         if src is not None:
             return -src if neg else src
+    syms = [it for it in items if not isinstance(it, _b.int)]
+    if len(syms) > 2 and all(it.hi < 128 for it in syms):
+        # many symbolic characters: decide "no underscore" and "every character is a digit" as ONE decision each instead of one per
+        # character (the ValueError does not depend on which character is the offender)
+        any_us = core.sym_or(*[it == 95 for it in items])
+        if not _b.bool(truth(any_us)):
+            if not _b.bool(truth(core.sym_and(*[_digit_ok(it, base) for it in items]))):
+                raise ValueError("invalid literal for int()")
+            digs = [_digit_val(it, base) for it in items]
+            if base == 10 and len(digs) >= 20:
+                # long decimal literal: case-split on the number of leading zeros (one multi-way decision), so that the value's
+                # interval [10**(m-1), 10**m) is known exactly and magnitude comparisons need no wide multiplication chain
+                n = len(digs)
+                lz = n
+                for k in range(n - 1, -1, -1):
+                    lz = ite(digs[k] != 0, k, lz)
+                k = c.concretize(lz)
+                digs = digs[k:]
+                v = 0
+                for d in digs:
+                    v = v * base + d
+                if digs and not isinstance(v, _b.int):
+                    v = core.mk_int(v.e, base ** (len(digs) - 1), base ** len(digs) - 1)
+                return -v if neg else v
+            v = 0
+            for d in digs:
+                v = v * base + d
+            return -v if neg else v
     v = 0
     prev_us = True  # an underscore may not lead
     for idx, it in enumerate(items):
@@ -167,6 +202,33 @@ def parse_int(s, base):
         d = _digit_value(it, base)
         v = v * base + d
     return -v if neg else v
+
+
+def _digit_ok(it, base):
+    if isinstance(it, _b.int):
+        try:
+            _b.int(chr(it), base)
+            return True
+        except ValueError:
+            return False
+    is_dec = core.sym_and(it >= 48, it <= min(57, 48 + base - 1))
+    if base <= 10:
+        return is_dec
+    return core.sym_or(is_dec, core.sym_and(it >= 97, it <= 97 + base - 11), core.sym_and(it >= 65, it <= 65 + base - 11))
+
+
+def _digit_val(it, base):
+    """digit value of a code unit already known to be a digit (no fork)"""
+    if isinstance(it, _b.int):
+        return _b.int(chr(it), base)
+    if base == 16:
+        from .seq import hex_source
+        src = hex_source(it)
+        if src is not None:
+            return src
+    if base <= 10:
+        return it - 48
+    return ite(it <= 57, it - 48, ite(it >= 97, it - 87, it - 55))
 
 
 def _digit_value(it, base):
